@@ -257,7 +257,9 @@ class JaxLikelihoodEnergyOperator(LikelihoodEnergyOperator):
     def _simplify_for_constant_input_nontrivial(self, c_inp):
         func2 = lambda x: self._func({**x, **_anyarray2jax(c_inp.val)})
         dom = {kk: vv for kk, vv in self._domain.items() if kk not in c_inp.keys()}
-        _, trafo = self._trafo.simplify_for_constant_input(c_inp)
+        trafo = None
+        if self._trafo is not None:
+            _, trafo = self._trafo.simplify_for_constant_input(c_inp)
         if isinstance(self._dt, dict):
             dt = {kk: self._dt[kk] for kk in dom.keys()}
         else:
